@@ -43,6 +43,27 @@ LANES = {
 }
 
 
+def harness_dir():
+    """The harness crate depends on the code under test by path (/repo). For background sweeps on a
+    copy of the repository (JL_REPO=<dir>, never used by the registered commands) a private copy of
+    the harness with the path rewritten is used."""
+    if REPO == "/repo":
+        return HARNESS
+    tag = hashlib.sha1(REPO.encode()).hexdigest()[:10]
+    dst = os.path.join(TARGET, "harness-" + tag)
+    os.makedirs(os.path.join(dst, "src"), exist_ok=True)
+    for f in os.listdir(os.path.join(HARNESS, "src")):
+        a, b = os.path.join(HARNESS, "src", f), os.path.join(dst, "src", f)
+        if not os.path.exists(b) or open(a, "rb").read() != open(b, "rb").read():
+            shutil.copy(a, b)
+    toml = open(os.path.join(HARNESS, "Cargo.toml")).read().replace('path = "/repo"', 'path = "%s"' % REPO)
+    if not os.path.exists(os.path.join(dst, "Cargo.toml")) or open(os.path.join(dst, "Cargo.toml")).read() != toml:
+        open(os.path.join(dst, "Cargo.toml"), "w").write(toml)
+    if not os.path.exists(os.path.join(dst, "Cargo.lock")):
+        shutil.copy(os.path.join(HARNESS, "Cargo.lock"), os.path.join(dst, "Cargo.lock"))
+    return dst
+
+
 def ensure_lock():
     """The harness shares /repo's lock file (same dependency versions as the code under test)."""
     dst = os.path.join(HARNESS, "Cargo.lock")
@@ -72,7 +93,7 @@ def build_lane(lane):
     tdir = os.path.join(TARGET, lane)
     env = dict(env)
     env["CARGO_TARGET_DIR"] = tdir
-    rc, out, err, dt = run_cmd(["cargo"] + args, env=env, cwd=HARNESS, timeout=3000)
+    rc, out, err, dt = run_cmd(["cargo"] + args, env=env, cwd=harness_dir(), timeout=3000)
     if rc != 0:
         sys.stderr.write(err.decode("utf8", "replace")[-4000:])
         raise Inconclusive("build of lane %s failed (rc=%s)" % (lane, rc))
@@ -92,7 +113,7 @@ def build_miri():
     env = dict(MIRI_ENV)
     env["MIRIFLAGS"] = "-Zmiri-disable-isolation"
     rc, out, err, dt = run_cmd(["cargo", "+nightly", "miri", "run", "--offline", "--no-default-features", "--", "miri-ping"],
-                               env=env, cwd=HARNESS, timeout=3000)
+                               env=env, cwd=harness_dir(), timeout=3000)
     if rc != 0 or b"miri-pong" not in out:
         sys.stderr.write(err.decode("utf8", "replace")[-3000:])
         raise Inconclusive("the Miri lane could not be built / started (rc=%s)" % rc)
@@ -111,7 +132,7 @@ def run_miri(pid, tier, seed, miri_seeds, timeout=3600):
         env["MIRIFLAGS"] = "-Zmiri-disable-isolation -Zmiri-seed=%d" % ms
         cmd = ["cargo", "+nightly", "miri", "run", "--offline", "--no-default-features", "--", "run", pid, "--tier", tier,
                "--seed", str(seed + ms), "--shard", "%d/%d" % (ms % 16, 16), "--lane", "miri", "--small", "--out", outp]
-        rc, out, err, dt = run_cmd(cmd, env=env, cwd=HARNESS, timeout=timeout)
+        rc, out, err, dt = run_cmd(cmd, env=env, cwd=harness_dir(), timeout=timeout)
         return ms, rc, outp, err, dt, cmd
 
     reports, failures = [], []
